@@ -869,6 +869,14 @@ func indirect(v reflect.Value, wantPtr bool) reflect.Value {
 			break
 		}
 
+		// Prevent an infinite loop if v is an interface pointing to its own address:
+		//     var v interface{}
+		//     v = &v
+		if e := v.Elem(); e.Kind() == reflect.Interface && e.Elem().Kind() == reflect.Ptr && e.Elem().Pointer() == v.Pointer() {
+			v = e
+			break
+		}
+
 		if v.IsNil() {
 			v.Set(reflect.New(v.Type().Elem()))
 		}
